@@ -33,6 +33,8 @@ GROUP = {
           rewrites=[("R9-arena-box-slice", "bumpalo::boxed::Box<[Posting]>", "Vec<Posting>", 1)]),
         U("Ledger(type)", QU, [r"pub struct Ledger<'ctx>"]),
         ("text", "query_spec.rs"),
+        ("text", "ledger_sum.rs"),
+        ("text", "query_theorems.rs"),
         # ---- Balance::round: every account's holdings rounded, no account added or dropped
         U("Balance::round", BA, [r"impl<'ctx> Balance<'ctx>", r"pub fn round\b"], fn="round", wrap=("impl Balance {", "}"),
           rewrites=[("R25e",)],
